@@ -1,6 +1,7 @@
 // Harness for C17 (SEI messages survive write/parse round trips).
-//   c17 corr   -seed S -n N -exh L   : cases + implementation observables for the model diff
-//   c17 search -seed S -n N -exh L   : evaluates the property itself on the implementation
+//
+//	c17 corr   -seed S -n N -exh L   : cases + implementation observables for the model diff
+//	c17 search -seed S -n N -exh L   : evaluates the property itself on the implementation
 package main
 
 import (
@@ -371,6 +372,18 @@ func checkList(ms []*rawMsg) {
 }
 
 func search(seed uint64, n, nt, exh int) {
+	// small scope first (so that a failing input, if any, is reported with a minimal witness):
+	// all pairs of messages over boundary types with payloads up to 2 bytes
+	for _, t1 := range []uint{0, 3, 0x80, 255} {
+		for _, t2 := range []uint{0, 1, 3, 0x80, 255} {
+			allStrings([]byte{0, 3, 0x80}, 2, func(p1 []byte) {
+				p1 = append([]byte{}, p1...)
+				allStrings([]byte{0, 3, 0x80}, 2, func(p2 []byte) {
+					checkList([]*rawMsg{{t: t1, pl: p1}, {t: t2, pl: append([]byte{}, p2...)}})
+				})
+			})
+		}
+	}
 	for _, t := range []uint{0, 2, 0x80, 254, 255, 256} {
 		allStrings([]byte{0, 1, 3, 0x80, 0xff}, exh, func(p []byte) {
 			checkList([]*rawMsg{{t: t, pl: append([]byte{}, p...)}})
